@@ -1,4 +1,954 @@
-(* Listing.v -- stub; the model that belongs here is being written. *)
-From P7 Require Import Prelude.
+(* Listing.v -- model of py7zr's listing interfaces (property C10), over the entry
+   assignment of Assign.v (`impl_plans` = SevenZipFile._real_get_contents) and the header
+   graph of Header.v.
+
+   Mirrors, line by line, of py7zr/py7zr.py:
+     ArchiveFile.filename / uncompressed / crc32 / _test_attribute / is_directory / archivable /
+       readonly / _get_unix_extension / is_symlink / is_junction / is_socket       (112-235)
+     _real_get_contents: the generated name of an entry stored without one         (509-521)
+                         password_protected                                        (345, 523-527)
+     _extract: the kind decision (directory / socket / link / regular), both with a
+               destination path and with a WriterFactory                           (588-607)
+     Worker.extract / _check: `if f.crc32 is not None and crc32 != f.crc32`        (1436, 1458)
+     getnames / namelist / getinfo / archiveinfo / needs_password / list           (943-1009)
+     _get_method_names / _is_solid                                                 (786-806)
+   and of py7zr/compressor.py: SupportedMethods.methods (948-1085), get_filter_id,
+     is_crypto_id, needs_password (1096-1170), get_methods_names (1197-1232);
+   helpers.remove_trailing_slash.
+
+   Not modelled (not part of C10's statement): FileInfo.compressed, ArchiveInfo.header_size /
+   stat / filename, the conversion of FILETIME values to datetime (list() is modelled with the
+   raw FILETIME value; the harness applies filetime_to_dt to the model's value).
+
+   Names are lists of code points; '/' = 47.  Definitions first (all computable, extracted);
+   proofs after. *)
+From P7 Require Import Prelude PyPrims Number Crc32 Header HeaderCodec Spec Assign.
+From Coq Require Import ZifyBool.
 Open Scope Z_scope.
-Definition listing_dispatch (fn : Z) (a : tree) : tree := TL [TI (-2)].
+
+(* ------------------------------------------------------------------ *)
+(* strings                                                             *)
+(* ------------------------------------------------------------------ *)
+Definition str := list Z.
+
+Fixpoint str_eqb (a b : str) : bool :=
+  match a, b with
+  | [], [] => true
+  | x :: a', y :: b' => (x =? y) && str_eqb a' b'
+  | _, _ => false
+  end.
+
+(* helpers.remove_trailing_slash: if path.endswith("/"): return path[:-1] *)
+Definition remove_trailing_slash (s : str) : str :=
+  match rev s with
+  | c :: r => if c =? 47 then rev r else s
+  | [] => s
+  end.
+
+(* ------------------------------------------------------------------ *)
+(* ArchiveFile: the view of one entry                                   *)
+(* ------------------------------------------------------------------ *)
+(* f.filename: the stored name, or the name _real_get_contents generates for an entry stored
+   without one (`dflt` = stem of the archive's file name, or "contents") *)
+Definition af_filename (dflt : str) (p : iplan) : str :=
+  match ip_name p with Some n => n | None => dflt end.
+Definition af_uncompressed (p : iplan) : Z := ip_size p.
+Definition af_crc32 (p : iplan) : option Z := ip_crc p.
+Definition af_lastwritetime (p : iplan) : option Z := ip_mtime p.
+
+(* _test_attribute(bit): attributes is None -> False ; attributes & bit == bit *)
+Definition test_attribute (p : iplan) (bit : Z) : bool :=
+  match ip_attr p with None => false | Some v => Z.land v bit =? bit end.
+Definition af_is_directory (p : iplan) : bool := test_attribute p 16.      (* FILE_ATTRIBUTE_DIRECTORY *)
+Definition af_archivable (p : iplan) : bool := test_attribute p 32.        (* FILE_ATTRIBUTE_ARCHIVE *)
+Definition af_readonly (p : iplan) : bool := test_attribute p 1.           (* FILE_ATTRIBUTE_READONLY *)
+Definition unix_extension (p : iplan) : option Z :=
+  if test_attribute p 32768 then match ip_attr p with Some v => Some (Z.shiftr v 16) | None => None end
+  else None.
+Definition s_islnk (e : Z) : bool := Z.land e 61440 =? 40960.               (* S_IFMT, S_IFLNK *)
+Definition s_issock (e : Z) : bool := Z.land e 61440 =? 49152.              (* S_IFSOCK *)
+Definition af_is_symlink (p : iplan) : bool :=
+  match unix_extension p with Some e => s_islnk e | None => test_attribute p 1024 end.  (* REPARSE_POINT *)
+Definition af_is_junction (p : iplan) : bool := test_attribute p 1040.      (* REPARSE_POINT | DIRECTORY *)
+Definition af_is_socket (p : iplan) : bool :=
+  match unix_extension p with Some e => s_issock e | None => false end.
+
+(* ------------------------------------------------------------------ *)
+(* what extraction does with an entry (the decision chain of _extract)  *)
+(* ------------------------------------------------------------------ *)
+Inductive xaction := XDir | XSkip | XLink | XFile.
+Definition xaction_code (a : xaction) : Z := match a with XDir => 0 | XSkip => 1 | XLink => 2 | XFile => 3 end.
+(* extractall(path): elif f.is_directory -> mkdir ; elif f.is_socket -> nothing ;
+   elif f.is_symlink or f.is_junction -> link ; else -> regular file *)
+Definition extract_action_path (p : iplan) : xaction :=
+  if af_is_directory p then XDir
+  else if af_is_socket p then XSkip
+  else if af_is_symlink p || af_is_junction p then XLink
+  else XFile.
+(* extractall(factory=...): directories and sockets are ignored, everything else gets a writer *)
+Definition extract_action_factory (p : iplan) : xaction :=
+  if af_is_directory p || af_is_socket p then XSkip else XFile.
+
+(* Worker.decompress hands a member the next `size` bytes of its folder's decoded stream D,
+   the cursor being the sum of the sizes before it (ip_offset) *)
+Definition member_bytes (D : bytes) (p : iplan) : bytes := takeZ (ip_size p) (dropZ (ip_offset p) D).
+(* `if f.crc32 is not None and crc32 != f.crc32: raise CrcError` *)
+Definition crc_check (p : iplan) (d : bytes) : bool :=
+  match af_crc32 p with Some c => crc32 d =? c | None => true end.
+
+(* ------------------------------------------------------------------ *)
+(* the listing interfaces                                               *)
+(* ------------------------------------------------------------------ *)
+(* self.files iterated: ArchiveFile objects in stored order *)
+Definition files_names (dflt : str) (ps : list iplan) : list str := map (af_filename dflt) ps.
+(* namelist: list(map(lambda x: x.filename, self.files)) *)
+Definition namelist (dflt : str) (ps : list iplan) : list str := map (fun x => af_filename dflt x) ps.
+(* getnames: return self.namelist() *)
+Definition getnames (dflt : str) (ps : list iplan) : list str := namelist dflt ps.
+
+(* list(): one FileInfo per member; `lastmodified` is a local of the method, assigned only when the
+   member has a timestamp -- it is NOT reset per iteration *)
+Record finfo := mkFinfo {
+  fi_filename : str; fi_uncompressed : Z; fi_archivable : bool; fi_is_directory : bool;
+  fi_creationtime : option Z; fi_crc32 : option Z }.
+Fixpoint list_loop (dflt : str) (lastmodified : option Z) (ps : list iplan) : list finfo :=
+  match ps with
+  | [] => []
+  | f :: r =>
+      let lastmodified' := match af_lastwritetime f with Some t => Some t | None => lastmodified end in
+      mkFinfo (af_filename dflt f) (af_uncompressed f) (af_archivable f) (af_is_directory f) lastmodified' (af_crc32 f)
+      :: list_loop dflt lastmodified' r
+  end.
+Definition list_model (dflt : str) (ps : list iplan) : list finfo := list_loop dflt None ps.
+Definition list_names (dflt : str) (ps : list iplan) : list str := map fi_filename (list_model dflt ps).
+
+(* getinfo(name): name = remove_trailing_slash(name);
+   next(filter(lambda member: member.filename == name, self.files), None); None -> KeyError.
+   The result carries the position of the member (ArchiveFile.id of self.files). *)
+Fixpoint first_match (dflt : str) (name : str) (ps : list iplan) (i : Z) : option (Z * iplan) :=
+  match ps with
+  | [] => None
+  | p :: r => if str_eqb (af_filename dflt p) name then Some (i, p) else first_match dflt name r (i + 1)
+  end.
+Definition getinfo (dflt : str) (ps : list iplan) (name : str) : option (Z * iplan) :=
+  first_match dflt (remove_trailing_slash name) ps 0.
+
+(* ------------------------------------------------------------------ *)
+(* SupportedMethods                                                     *)
+(* ------------------------------------------------------------------ *)
+Record method := mkMethod { m_id : bytes; m_name : str; m_filter : Z; m_type : Z (* 0 compressor, 1 filter, 2 crypto *) }.
+Definition AES_ID : bytes := [6; 241; 7; 1].
+Definition BCJ2_ID : bytes := [3; 3; 1; 27].
+Definition LZ4_ID : bytes := [4; 247; 17; 4].
+Definition supported_methods : list method :=
+  [ mkMethod [0] [67; 79; 80; 89] (* COPY *) 51 0;
+    mkMethod [33] [76; 90; 77; 65; 50] (* LZMA2 *) 33 0;
+    mkMethod [3] [68; 69; 76; 84; 65] (* DELTA *) 3 1;
+    mkMethod [3; 1; 1] [76; 90; 77; 65] (* LZMA *) 4611686018427387905 0;
+    mkMethod [3; 3; 1; 3] [66; 67; 74] (* BCJ *) 4 1;
+    mkMethod [3; 3; 2; 5] [80; 80; 67] (* PPC *) 5 1;
+    mkMethod [3; 3; 4; 1] [73; 65; 54; 52] (* IA64 *) 6 1;
+    mkMethod [3; 3; 5; 1] [65; 82; 77] (* ARM *) 7 1;
+    mkMethod [3; 3; 7; 1] [65; 82; 77; 84] (* ARMT *) 8 1;
+    mkMethod [3; 3; 8; 5] [83; 80; 65; 82; 67] (* SPARC *) 9 1;
+    mkMethod [4; 1; 8] [68; 69; 70; 76; 65; 84; 69] (* DEFLATE *) 50 0;
+    mkMethod [4; 2; 2] [66; 90; 105; 112; 50] (* BZip2 *) 49 0;
+    mkMethod [4; 247; 17; 1] [90; 83; 116; 97; 110; 100; 97; 114; 100] (* ZStandard *) 53 0;
+    mkMethod [3; 4; 1] [80; 80; 77; 100] (* PPMd *) 54 0;
+    mkMethod [4; 247; 17; 2] [66; 114; 111; 116; 108; 105] (* Brotli *) 55 0;
+    mkMethod [4; 1; 9] [68; 69; 70; 76; 65; 84; 69; 54; 52] (* DEFLATE64 *) 56 0;
+    mkMethod AES_ID [55; 122; 65; 69; 83] (* 7zAES *) 116459265 2 ].
+
+(* get_methods_names: the display priority list *)
+Definition methods_namelist : list str :=
+  [ [76; 90; 77; 65; 50] (* LZMA2 *);
+    [76; 90; 77; 65] (* LZMA *);
+    [66; 90; 105; 112; 50] (* BZip2 *);
+    [68; 69; 70; 76; 65; 84; 69] (* DEFLATE *);
+    [68; 69; 70; 76; 65; 84; 69; 54; 52] (* DEFLATE64 *);
+    [100; 101; 108; 116; 97] (* delta *);
+    [67; 79; 80; 89] (* COPY *);
+    [80; 80; 77; 100] (* PPMd *);
+    [90; 83; 116; 97; 110; 100; 97; 114; 100] (* ZStandard *);
+    [76; 90; 52; 42] (* LZ4* *);
+    [66; 67; 74; 50; 42] (* BCJ2* *);
+    [66; 67; 74] (* BCJ *);
+    [65; 82; 77] (* ARM *);
+    [65; 82; 77; 84] (* ARMT *);
+    [73; 65; 54; 52] (* IA64 *);
+    [80; 80; 67] (* PPC *);
+    [83; 80; 65; 82; 67] (* SPARC *);
+    [55; 122; 65; 69; 83] (* 7zAES *) ].
+
+
+(* for m in SupportedMethods.methods: if coder["method"] == m["id"]: append(m["name"])
+   if coder["method"] in unsupported_methods: append(unsupported_methods[coder["method"]]) *)
+Definition coder_names (c : coder) : list str :=
+  map m_name (filter (fun m => str_eqb (c_method c) (m_id m)) supported_methods)
+  ++ (if str_eqb (c_method c) BCJ2_ID then [[66; 67; 74; 50; 42] (* BCJ2* *)]
+      else if str_eqb (c_method c) LZ4_ID then [[76; 90; 52; 42] (* LZ4* *)] else []).
+Definition collected_names (coders_lists : list (list coder)) : list str :=
+  flat_map (fun coders => flat_map coder_names coders) coders_lists.
+(* return list(filter(lambda x: x in methods_names, methods_namelist)) *)
+Definition get_methods_names (coders_lists : list (list coder)) : list str :=
+  let names := collected_names coders_lists in
+  filter (fun x => existsb (str_eqb x) names) methods_namelist.
+
+(* SupportedMethods.get_filter_id / is_crypto_id / needs_password *)
+Definition get_filter_id (c : coder) : option Z :=
+  match find (fun m => str_eqb (m_id m) (c_method c)) supported_methods with
+  | Some m => Some (m_filter m) | None => None end.
+Definition is_crypto_id (fid : Z) : res bool :=
+  match find (fun m => m_filter m =? fid) supported_methods with
+  | Some m => Ok (m_type m =? 2)
+  | None => Err EUnsupported                (* raise_unsupported_filter_id *)
+  end.
+Fixpoint coders_need_password (cs : list coder) : res bool :=
+  match cs with
+  | [] => Ok false
+  | c :: r =>
+      match get_filter_id c with
+      | None => coders_need_password r
+      | Some fid => do b <- is_crypto_id fid; if b then Ok true else coders_need_password r
+      end
+  end.
+Fixpoint map_res {A B} (f : A -> res B) (l : list A) : res (list B) :=
+  match l with [] => Ok [] | x :: r => do y <- f x; do t <- map_res f r; Ok (y :: t) end.
+
+(* ------------------------------------------------------------------ *)
+(* archiveinfo                                                          *)
+(* ------------------------------------------------------------------ *)
+Record ainfo := mkAinfo { ai_method_names : list str; ai_solid : bool; ai_blocks : Z; ai_uncompressed : Z }.
+
+(* functools.reduce(lambda x, y: x + y, xs) -- no initial value: TypeError on the empty list *)
+Definition reduce_add (xs : list Z) : res Z :=
+  match xs with [] => Err EOther | x :: r => Ok (fold_left Z.add r x) end.
+
+(* archiveinfo() of an archive whose header graph is h; `has_filename` = the archive was opened by
+   path (self.filename is not None), otherwise `assert fname is not None` fails *)
+Definition archiveinfo (has_filename : bool) (h : header) : res ainfo :=
+  do ps <- impl_plans h;                                  (* the archive opened *)
+  do total <- reduce_add (map af_uncompressed ps);
+  if negb has_filename then Err EOther else
+  match h_streams h with
+  | None => Err EOther                                    (* _get_method_names: None.unpackinfo *)
+  | Some st =>
+      match si_folders st with
+      | None => Err EOther
+      | Some folders =>
+          let names := get_methods_names (map f_coders folders) in
+          match si_sub st with
+          | None => Err EOther                            (* _is_solid: None.num_unpackstreams_folders *)
+          | Some sub =>
+              Ok (mkAinfo names (existsb (fun f => 1 <? f) (s_nums sub)) (zlen folders) total)
+          end
+      end
+  end.
+
+(* needs_password(): self.password_protected, computed when the archive is opened *)
+Definition needs_password (password_given : bool) (h : header) : res bool :=
+  do _ <- impl_plans h;
+  match h_files h with
+  | None => Ok password_given                             (* early return before the coder test *)
+  | Some _ =>
+      if password_given then Ok true else
+      match h_streams h with
+      | None => Ok false
+      | Some st =>
+          match si_folders st with
+          | None => Err EOther
+          | Some folders =>
+              do bs <- map_res coders_need_password (map f_coders folders);
+              Ok (existsb (fun b => b) bs)
+          end
+      end
+  end.
+
+(* everything at once, for the correspondence check *)
+Definition t_str (s : str) : tree := TL (map TI s).
+Definition t_finfo (f : finfo) : tree :=
+  TL [t_str (fi_filename f); TI (fi_uncompressed f); t_bool (fi_archivable f); t_bool (fi_is_directory f);
+      t_opt TI (fi_creationtime f); t_opt TI (fi_crc32 f)].
+Definition t_af (dflt : str) (p : iplan) : tree :=
+  TL [t_str (af_filename dflt p); TI (af_uncompressed p); t_opt TI (af_crc32 p); t_bool (af_is_directory p);
+      t_bool (af_archivable p); t_bool (af_readonly p); t_bool (af_is_symlink p); t_bool (af_is_junction p);
+      t_bool (af_is_socket p); TI (xaction_code (extract_action_path p)); TI (xaction_code (extract_action_factory p));
+      TI (ip_kind p)].
+Definition t_ainfo (a : ainfo) : tree :=
+  TL [TL (map t_str (ai_method_names a)); t_bool (ai_solid a); TI (ai_blocks a); TI (ai_uncompressed a)].
+
+Definition listing_all (dflt : str) (h : header) : res tree :=
+  do ps <- impl_plans h;
+  Ok (TL [TL (map t_str (getnames dflt ps)); TL (map t_str (namelist dflt ps)); TL (map t_str (list_names dflt ps));
+          TL (map t_str (files_names dflt ps)); TL (map t_finfo (list_model dflt ps)); TL (map (t_af dflt) ps)]).
+
+Definition t_getinfo (r : option (Z * iplan)) : tree :=
+  match r with Some (i, _) => TL [TI i] | None => TL [] end.
+
+Definition listing_dispatch (fn : Z) (a : tree) : tree :=
+  match fn with
+  (* FN 440 listing_all : (dflt header-tree) -> res (getnames namelist list_names files_names list-rows file-rows) *)
+  | 440 => t_res (fun t => t) (listing_all (of_bytes (tnth a 0)) (of_header (tnth a 1)))
+  (* FN 441 listing_all_of_bytes : (lim dflt bytes) -> same, through the model of the header parser *)
+  | 441 => t_res (fun t => t) (do h <- parse_header (of_TI (tnth a 0)) (of_bytes (tnth a 2)); listing_all (of_bytes (tnth a 1)) h)
+  (* FN 442 getinfo : (dflt header-tree name) -> res (() | (index)) *)
+  | 442 => t_res t_getinfo (do ps <- impl_plans (of_header (tnth a 1));
+                            Ok (getinfo (of_bytes (tnth a 0)) ps (of_bytes (tnth a 2))))
+  (* FN 443 archiveinfo : (has_filename header-tree) -> res (method_names solid blocks uncompressed) *)
+  | 443 => t_res t_ainfo (archiveinfo (of_bool (tnth a 0)) (of_header (tnth a 1)))
+  (* FN 444 needs_password : (password_given header-tree) -> res bool *)
+  | 444 => t_res t_bool (needs_password (of_bool (tnth a 0)) (of_header (tnth a 1)))
+  (* FN 445 get_methods_names : list (list coder) -> list name *)
+  | 445 => TL (map t_str (get_methods_names (of_list (of_list of_coder) a)))
+  (* FN 446 coders_need_password : list coder -> res bool *)
+  | 446 => t_res t_bool (coders_need_password (of_list of_coder a))
+  (* FN 447 remove_trailing_slash : name -> name *)
+  | 447 => t_str (remove_trailing_slash (of_bytes a))
+  (* FN 448 getinfo_bytes : (lim dflt bytes name) -> res (() | (index)) *)
+  | 448 => t_res t_getinfo (do h <- parse_header (of_TI (tnth a 0)) (of_bytes (tnth a 2)); do ps <- impl_plans h;
+                            Ok (getinfo (of_bytes (tnth a 1)) ps (of_bytes (tnth a 3))))
+  (* FN 449 archiveinfo_bytes : (lim has_filename bytes) -> res (method_names solid blocks uncompressed) *)
+  | 449 => t_res t_ainfo (do h <- parse_header (of_TI (tnth a 0)) (of_bytes (tnth a 2)); archiveinfo (of_bool (tnth a 1)) h)
+  (* FN 450 needs_password_bytes : (lim password_given bytes) -> res bool *)
+  | 450 => t_res t_bool (do h <- parse_header (of_TI (tnth a 0)) (of_bytes (tnth a 2)); needs_password (of_bool (tnth a 1)) h)
+  | _ => TL [TI (-2)]
+  end.
+
+(* ================================================================== *)
+(* Proofs                                                              *)
+(* ================================================================== *)
+
+(* ---------- strings ---------- *)
+Lemma str_eqb_eq (a b : str) : str_eqb a b = true <-> a = b.
+Proof.
+  revert b; induction a as [|x a IH]; intros [|y b]; simpl; split; intros H; try discriminate; try reflexivity.
+  - apply andb_true_iff in H as [H1 H2]. apply Z.eqb_eq in H1. apply IH in H2. congruence.
+  - inversion H; subst. rewrite Z.eqb_refl. simpl. now apply IH.
+Qed.
+Lemma str_eqb_refl (a : str) : str_eqb a a = true.
+Proof. now apply str_eqb_eq. Qed.
+Lemma str_eqb_neq (a b : str) : str_eqb a b = false <-> a <> b.
+Proof.
+  split; intros H.
+  - intros E. apply str_eqb_eq in E. congruence.
+  - destruct (str_eqb a b) eqn:E; [apply str_eqb_eq in E; contradiction | reflexivity].
+Qed.
+
+Definition ends_with_slash (n : str) : Prop := exists r, n = r ++ [47].
+
+Lemma remove_trailing_slash_app (n : str) : remove_trailing_slash (n ++ [47]) = n.
+Proof. unfold remove_trailing_slash. rewrite rev_app_distr. simpl. now rewrite rev_involutive. Qed.
+
+Lemma remove_trailing_slash_plain (n : str) : ~ ends_with_slash n -> remove_trailing_slash n = n.
+Proof.
+  intros H. unfold remove_trailing_slash. destruct (rev n) as [|c r] eqn:E; [reflexivity|].
+  destruct (c =? 47) eqn:Ec; [|reflexivity].
+  exfalso. apply H. exists (rev r). apply Z.eqb_eq in Ec. subst c.
+  rewrite <- (rev_involutive n), E. reflexivity.
+Qed.
+
+Lemma remove_trailing_slash_cases (n : str) :
+  (exists r, n = r ++ [47] /\ remove_trailing_slash n = r) \/ (~ ends_with_slash n /\ remove_trailing_slash n = n).
+Proof.
+  destruct (rev n) as [|c r] eqn:E.
+  - right. assert (n = []) by (rewrite <- (rev_involutive n), E; reflexivity). subst. split; [|reflexivity].
+    intros [r Hr]. destruct r; discriminate.
+  - destruct (c =? 47) eqn:Ec.
+    + left. exists (rev r). apply Z.eqb_eq in Ec. subst c.
+      assert (Hn : n = rev r ++ [47]) by (rewrite <- (rev_involutive n), E; reflexivity).
+      split; [exact Hn|]. rewrite Hn. apply remove_trailing_slash_app.
+    + right. assert (Hns : ~ ends_with_slash n).
+      { intros [r' Hr']. subst n. rewrite rev_app_distr in E. simpl in E. inversion E; subst. discriminate. }
+      split; [exact Hns | now apply remove_trailing_slash_plain].
+Qed.
+
+(* ---------- names ---------- *)
+Lemma list_loop_names dflt last ps : map fi_filename (list_loop dflt last ps) = map (af_filename dflt) ps.
+Proof. revert last; induction ps as [|p r IH]; intros last; simpl; [reflexivity | now rewrite IH]. Qed.
+
+Lemma names_agree_plans dflt ps :
+  getnames dflt ps = namelist dflt ps /\ list_names dflt ps = namelist dflt ps /\ files_names dflt ps = namelist dflt ps.
+Proof. repeat split. unfold list_names, list_model. apply list_loop_names. Qed.
+
+(* the rows of list() carry the member's own size, CRC and flags (only the timestamp is carried over) *)
+Lemma list_loop_rows dflt last ps i p :
+  nth_error ps i = Some p ->
+  exists row, nth_error (list_loop dflt last ps) i = Some row /\ fi_filename row = af_filename dflt p
+              /\ fi_uncompressed row = af_uncompressed p /\ fi_crc32 row = af_crc32 p
+              /\ fi_is_directory row = af_is_directory p /\ fi_archivable row = af_archivable p.
+Proof.
+  revert last i; induction ps as [|q r IH]; intros last [|i] H; simpl in *; try discriminate.
+  - inversion H; subst. eexists; split; [reflexivity|]. simpl. repeat split.
+  - apply IH with (last := match af_lastwritetime q with Some t => Some t | None => last end) in H. exact H.
+Qed.
+
+(* ---------- getinfo ---------- *)
+Lemma first_match_none dflt name ps i :
+  first_match dflt name ps i = None <-> ~ In name (map (af_filename dflt) ps).
+Proof.
+  revert i; induction ps as [|p r IH]; intros i; simpl.
+  - split; [intros _ [] | reflexivity].
+  - destruct (str_eqb (af_filename dflt p) name) eqn:E.
+    + apply str_eqb_eq in E. split; [discriminate | intros H; exfalso; apply H; now left].
+    + apply str_eqb_neq in E. rewrite IH. split; [intros H [H1|H1]; [contradiction | now apply H] | intros H H1; apply H; now right].
+Qed.
+
+Lemma first_match_some dflt name ps i j p :
+  first_match dflt name ps i = Some (j, p) ->
+  i <= j /\ nth_error ps (Z.to_nat (j - i)) = Some p /\ af_filename dflt p = name
+  /\ (forall q, In q (firstn (Z.to_nat (j - i)) ps) -> af_filename dflt q <> name).
+Proof.
+  revert i; induction ps as [|q r IH]; intros i; simpl; [discriminate|].
+  destruct (str_eqb (af_filename dflt q) name) eqn:E.
+  - intros H; inversion H; subst. replace (j - j) with 0 by lia. simpl. apply str_eqb_eq in E.
+    repeat split; [lia | exact E | intros ? []].
+  - intros H. apply IH in H as (H1 & H2 & H3 & H4). apply str_eqb_neq in E.
+    replace (Z.to_nat (j - i)) with (S (Z.to_nat (j - (i + 1)))) by lia. simpl.
+    repeat split; [lia | exact H2 | exact H3 | intros q' [<-|Hq]; [exact E | now apply H4]].
+Qed.
+
+Lemma first_match_in dflt name ps i :
+  In name (map (af_filename dflt) ps) -> exists j p, first_match dflt name ps i = Some (j, p).
+Proof.
+  intros H. destruct (first_match dflt name ps i) as [[j p]|] eqn:E; [now exists j, p|].
+  apply first_match_none in E. contradiction.
+Qed.
+
+(* getinfo(name + "/") finds every listed name *)
+Lemma getinfo_finds_slashed_plans dflt ps n :
+  In n (getnames dflt ps) ->
+  exists j p, getinfo dflt ps (n ++ [47]) = Some (j, p) /\ nth_error ps (Z.to_nat j) = Some p /\ af_filename dflt p = n.
+Proof.
+  intros H. unfold getinfo. rewrite remove_trailing_slash_app.
+  destruct (first_match_in dflt n ps 0 H) as (j & p & E). exists j, p. split; [exact E|].
+  apply first_match_some in E as (_ & E2 & E3 & _). now rewrite Z.sub_0_r in E2.
+Qed.
+
+(* getinfo(name) finds every listed name that does not itself end in '/' -- and returns the FIRST member of that name *)
+Lemma getinfo_finds_plain_plans dflt ps n :
+  In n (getnames dflt ps) -> ~ ends_with_slash n ->
+  exists j p, getinfo dflt ps n = Some (j, p) /\ nth_error ps (Z.to_nat j) = Some p /\ af_filename dflt p = n
+              /\ (forall q, In q (firstn (Z.to_nat j) ps) -> af_filename dflt q <> n).
+Proof.
+  intros H Hs. unfold getinfo. rewrite remove_trailing_slash_plain by exact Hs.
+  destruct (first_match_in dflt n ps 0 H) as (j & p & E). exists j, p. split; [exact E|].
+  apply first_match_some in E as (_ & E2 & E3 & E4). rewrite Z.sub_0_r in E2, E4. auto.
+Qed.
+
+(* KeyError exactly when the name, with one trailing slash removed, is not listed *)
+Lemma getinfo_keyerror_iff_plans dflt ps n :
+  getinfo dflt ps n = None <-> ~ In (remove_trailing_slash n) (getnames dflt ps).
+Proof. unfold getinfo. apply first_match_none. Qed.
+
+(* the full statement "every listed name is found" is false: a listed name that itself ends in '/' *)
+Definition slash_plan : iplan := mkIPlan (Some [100; 47] (* d/ *)) 2 (-1) 0 0 None None (Some 16) 0.
+Lemma getinfo_total_refuted_plans :
+  exists dflt ps n, In n (getnames dflt ps) /\ getinfo dflt ps n = None.
+Proof. exists [], [slash_plan], [100; 47] (* d/ *). split; [left; reflexivity | reflexivity]. Qed.
+
+(* ---------- the assignment keeps order, names, attributes ---------- *)
+Definition entry_kind (e : fileent) : Z :=
+  if attr_is_dir (e_attr e) then 2 else if e_emptystream e then 1 else 0.
+Definition entry_plan_rel (e : fileent) (p : iplan) : Prop :=
+  ip_name p = e_name e /\ ip_attr p = flat_opt (e_attr e) /\ ip_mtime p = flat_opt (e_mtime e)
+  /\ ip_kind p = entry_kind e
+  /\ (e_emptystream e = true -> ip_size p = 0 /\ ip_crc p = None /\ ip_folder p = -1).
+
+(* one step through the head `match` / `if` / `let` / bind of a hypothesis  ... = Ok _  (keeps the proof independent
+   of the exact shape of assign_loop's body) *)
+Ltac step_ok H :=
+  match type of H with
+  | (match ?x with _ => _ end) = Ok _ => let E := fresh "E" in destruct x eqn:E; try discriminate H
+  end.
+
+Lemma assign_loop_rel multi files :
+  forall fid nums sizes dd dg folder outs input fstats nf ps,
+  assign_loop multi files fid nums sizes dd dg folder outs input fstats nf = Ok ps ->
+  Forall2 entry_plan_rel files ps.
+Proof.
+  induction files as [|e r IH]; intros fid nums sizes dd dg folder outs input fstats nf ps H; cbn [assign_loop] in H.
+  - inversion H; constructor.
+  - unfold bind in H. cbv zeta in H. repeat step_ok H.
+    all: try match goal with E : (if ?c then _ else _) = Ok _ |- _ => destruct c end.
+    all: inversion H; subst; (constructor; [|eapply IH; eauto]).
+    all: unfold entry_plan_rel, entry_kind; simpl;
+         match goal with E : e_emptystream _ = _ |- _ => rewrite E end; repeat split; discriminate.
+Qed.
+
+Lemma enumerate_rel (files : list fileent) : forall i,
+  Forall2 entry_plan_rel files
+    (map (fun '(i, e) =>
+            mkIPlan (e_name e) (if attr_is_dir (e_attr e) then 2 else if e_emptystream e then 1 else 0)
+                    (-1) 0 0 None (flat_opt (e_mtime e)) (flat_opt (e_attr e)) i)
+         (enumerate_from i files)).
+Proof.
+  induction files as [|e r IH]; intros i; simpl; constructor; [|apply IH].
+  unfold entry_plan_rel, entry_kind; simpl. repeat split.
+Qed.
+
+(* the members of an opened archive are its header entries, in stored order *)
+Lemma impl_plans_rel h ps :
+  impl_plans h = Ok ps ->
+  match h_files h with None => ps = [] | Some files => Forall2 entry_plan_rel files ps end.
+Proof.
+  unfold impl_plans. destruct (h_files h) as [files|]; [|intros H; now inversion H].
+  intros H. unfold bind in H. repeat step_ok H.
+  all: try (eapply assign_loop_rel; eassumption).
+  inversion H; subst. apply enumerate_rel.
+Qed.
+
+Lemma Forall2_map_eq {A B C} (R : A -> B -> Prop) (f : A -> C) (g : B -> C) l1 l2 :
+  Forall2 R l1 l2 -> (forall a b, R a b -> g b = f a) -> map g l2 = map f l1.
+Proof. induction 1; intros HR; simpl; [reflexivity|]. f_equal; auto. Qed.
+
+Lemma Forall2_nth_r {A B} (R : A -> B -> Prop) l1 l2 i b :
+  Forall2 R l1 l2 -> nth_error l2 i = Some b -> exists a, nth_error l1 i = Some a /\ R a b.
+Proof.
+  intros H; revert i; induction H; intros [|i] Hn; simpl in *; try discriminate.
+  - inversion Hn; subst. eauto.
+  - eauto.
+Qed.
+
+Lemma Forall2_in_r {A B} (R : A -> B -> Prop) l1 l2 b :
+  Forall2 R l1 l2 -> In b l2 -> exists a, In a l1 /\ R a b.
+Proof.
+  induction 1; intros Hin; simpl in *; [contradiction|]. destruct Hin as [<-|Hin]; [eauto|].
+  destruct (IHForall2 Hin) as (a & Ha & HR). eauto.
+Qed.
+
+Definition entry_name (dflt : str) (e : fileent) : str := match e_name e with Some n => n | None => dflt end.
+
+Lemma names_stored_order_plans dflt h ps files :
+  impl_plans h = Ok ps -> h_files h = Some files -> namelist dflt ps = map (entry_name dflt) files.
+Proof.
+  intros H Hf. apply impl_plans_rel in H. rewrite Hf in H. unfold namelist.
+  eapply Forall2_map_eq; [exact H|]. intros e p (Hn & _). unfold af_filename, entry_name. now rewrite Hn.
+Qed.
+
+(* ---------- directories ---------- *)
+Lemma land_16 (v : Z) : Z.land v 16 = if Z.testbit v 4 then 16 else 0.
+Proof.
+  apply Z.bits_inj'. intros n Hn. rewrite Z.land_spec.
+  replace (Z.testbit 16 n) with (4 =? n) by (symmetry; apply (Z.pow2_bits_eqb 4); lia).
+  destruct (Z.eqb_spec 4 n) as [<-|Hne].
+  - rewrite andb_true_r. destruct (Z.testbit v 4); [reflexivity | now rewrite Z.bits_0].
+  - rewrite andb_false_r. destruct (Z.testbit v 4); [|now rewrite Z.bits_0].
+    symmetry. replace (Z.testbit 16 n) with (4 =? n) by (symmetry; apply (Z.pow2_bits_eqb 4); lia).
+    now apply Z.eqb_neq.
+Qed.
+
+Lemma is_directory_attr (e : fileent) (p : iplan) :
+  ip_attr p = flat_opt (e_attr e) -> af_is_directory p = attr_is_dir (e_attr e).
+Proof.
+  unfold af_is_directory, test_attribute, attr_is_dir. intros ->.
+  destruct (e_attr e) as [[v|]|]; simpl; try reflexivity.
+  rewrite land_16. destruct (Z.testbit v 4); reflexivity.
+Qed.
+
+Lemma entry_rel_directory e p : entry_plan_rel e p -> (af_is_directory p = true <-> ip_kind p = 2).
+Proof.
+  intros (_ & Ha & _ & Hk & _). rewrite (is_directory_attr e p Ha), Hk. unfold entry_kind.
+  destruct (attr_is_dir (e_attr e)); [tauto|]. destruct (e_emptystream e); split; discriminate.
+Qed.
+
+(* listing flag = kind decision of Assign.v = what extraction does *)
+Lemma is_directory_iff_plans h ps p :
+  impl_plans h = Ok ps -> In p ps ->
+  (af_is_directory p = true <-> ip_kind p = 2)
+  /\ (af_is_directory p = true <-> extract_action_path p = XDir)
+  /\ (af_is_directory p = true -> extract_action_factory p = XSkip).
+Proof.
+  intros H Hin. apply impl_plans_rel in H. split; [|split].
+  - destruct (h_files h) as [files|]; [|subst; contradiction].
+    destruct (Forall2_in_r _ _ _ _ H Hin) as (e & _ & He). eapply entry_rel_directory; eauto.
+  - unfold extract_action_path. destruct (af_is_directory p); [tauto|].
+    destruct (af_is_socket p); [split; discriminate|]. destruct (af_is_symlink p || af_is_junction p); split; discriminate.
+  - unfold extract_action_factory. now intros ->.
+Qed.
+
+Lemma list_row_directory dflt ps i p row :
+  nth_error ps i = Some p -> nth_error (list_model dflt ps) i = Some row ->
+  fi_is_directory row = af_is_directory p /\ fi_uncompressed row = ip_size p /\ fi_crc32 row = ip_crc p
+  /\ fi_filename row = af_filename dflt p.
+Proof.
+  intros Hp Hr. destruct (list_loop_rows dflt None ps i p Hp) as (row' & Hr' & H1 & H2 & H3 & H4 & _).
+  unfold list_model in Hr. rewrite Hr in Hr'. inversion Hr'; subst. auto.
+Qed.
+
+(* ---------- sizes and CRCs ---------- *)
+Lemma takeZ_length {A} (n : Z) (l : list A) : 0 <= n <= zlen l -> zlen (takeZ n l) = n.
+Proof. intros H. unfold takeZ, zlen in *. rewrite firstn_length. lia. Qed.
+Lemma dropZ_length {A} (n : Z) (l : list A) : 0 <= n <= zlen l -> zlen (dropZ n l) = zlen l - n.
+Proof. intros H. unfold dropZ, zlen in *. rewrite skipn_length. lia. Qed.
+
+(* the bytes a member receives have exactly the listed length whenever its folder decodes to at
+   least offset + size bytes *)
+Lemma listed_size_truthful_plans (D : bytes) (p : iplan) :
+  0 <= ip_offset p -> 0 <= ip_size p -> ip_offset p + ip_size p <= zlen D ->
+  zlen (member_bytes D p) = af_uncompressed p.
+Proof.
+  intros H1 H2 H3. unfold member_bytes, af_uncompressed.
+  apply takeZ_length. rewrite dropZ_length by lia. lia.
+Qed.
+
+(* a member whose bytes passed the reader's CRC test is listed with the CRC32 of exactly those bytes *)
+Lemma listed_crc_truthful_plans (p : iplan) (d : bytes) (c : Z) :
+  af_crc32 p = Some c -> crc_check p d = true -> c = crc32 d.
+Proof. unfold crc_check. intros ->. intros H. apply Z.eqb_eq in H. now symmetry. Qed.
+
+Lemma listed_crc_range (p : iplan) (d : bytes) (c : Z) :
+  af_crc32 p = Some c -> crc_check p d = true -> 0 <= c < 2 ^ 32.
+Proof.
+  intros H1 H2. rewrite (listed_crc_truthful_plans p d c H1 H2). unfold crc32.
+  apply crc32_update_range. lia.
+Qed.
+
+(* ---------- against the specification reader (Spec.v) ---------- *)
+Lemma plans_agree_Forall2 ss : forall i ps,
+  plans_agree i ss ps = true -> Forall2 (fun s p => exists j, plan_agrees j s p = true) ss ps.
+Proof.
+  induction ss as [|s sr IH]; intros i [|p pr] H; simpl in H; try discriminate; constructor.
+  - apply andb_true_iff in H as [H _]. eauto.
+  - apply andb_true_iff in H as [_ H]. eauto.
+Qed.
+
+Definition oeqb (a b : option Z) : bool :=
+  match a, b with Some x, Some y => x =? y | None, None => true | _, _ => false end.
+Lemma oeqb_eq a b : oeqb a b = true -> a = b.
+Proof. destruct a, b; simpl; intros H; try discriminate; [apply Z.eqb_eq in H; now subst | reflexivity]. Qed.
+
+Lemma plan_agrees_fields j s p :
+  plan_agrees j s p = true ->
+  pl_name s = ip_name p /\ pl_kind s = ip_kind p /\ pl_attr s = ip_attr p /\ pl_mtime s = ip_mtime p
+  /\ (pl_kind s = 0 -> pl_size s = ip_size p /\ pl_crc s = ip_crc p /\ pl_folder s = ip_folder p /\ pl_offset s = ip_offset p).
+Proof.
+  unfold plan_agrees. intros H.
+  apply andb_true_iff in H as [H Hid].
+  apply andb_true_iff in H as [H Hattr].
+  apply andb_true_iff in H as [H Hmt].
+  apply andb_true_iff in H as [H Hdata].
+  apply andb_true_iff in H as [Hname Hkind].
+  change (match pl_name s with
+          | Some a => match ip_name p with Some b => str_eqb a b | None => false end
+          | None => match ip_name p with Some _ => false | None => true end end = true) in Hname.
+  split; [|split; [|split; [|split]]].
+  - destruct (pl_name s), (ip_name p); try discriminate; [apply str_eqb_eq in Hname; now subst | reflexivity].
+  - now apply Z.eqb_eq.
+  - now apply (oeqb_eq (pl_attr s) (ip_attr p)).
+  - now apply (oeqb_eq (pl_mtime s) (ip_mtime p)).
+  - intros Hk. rewrite Hk in Hdata. simpl in Hdata.
+    apply andb_true_iff in Hdata as [Hdata Hcrc].
+    apply andb_true_iff in Hdata as [Hdata Hsize].
+    apply andb_true_iff in Hdata as [Hfo Hoff].
+    repeat split; [now apply Z.eqb_eq | now apply (oeqb_eq (pl_crc s) (ip_crc p)) | now apply Z.eqb_eq | now apply Z.eqb_eq].
+Qed.
+
+Lemma Forall2_nth {A B} (R : A -> B -> Prop) l1 l2 i a b :
+  Forall2 R l1 l2 -> nth_error l1 i = Some a -> nth_error l2 i = Some b -> R a b.
+Proof.
+  intros H; revert i; induction H; intros [|i] Ha Hb; simpl in *; try discriminate.
+  - inversion Ha; inversion Hb; subst; assumption.
+  - eauto.
+Qed.
+
+(* relative to conformance of the assignment (`plans_agree`, the statement of C06's assign_conforms):
+   the listing of a data member shows the size and the stored CRC the FORMAT assigns to that entry, the
+   name the format stores, and the directory flag is the format's kind *)
+Lemma listing_conforms_plans dflt h ps ss i s p :
+  impl_plans h = Ok ps -> plans_agree 0 ss ps = true ->
+  nth_error ss i = Some s -> nth_error ps i = Some p ->
+  (pl_kind s = 0 -> af_uncompressed p = pl_size s /\ af_crc32 p = pl_crc s)
+  /\ af_filename dflt p = match pl_name s with Some n => n | None => dflt end
+  /\ (af_is_directory p = true <-> pl_kind s = 2).
+Proof.
+  intros Hi Hag Hs Hp. apply plans_agree_Forall2 in Hag.
+  destruct (Forall2_nth _ _ _ _ _ _ Hag Hs Hp) as (j & Hj).
+  apply plan_agrees_fields in Hj as (Hn & Hk & _ & _ & Hd).
+  split; [|split].
+  - intros H0. destruct (Hd H0) as (H1 & H2 & _). unfold af_uncompressed, af_crc32. now rewrite H1, H2.
+  - unfold af_filename. now rewrite Hn.
+  - rewrite Hk. apply (is_directory_iff_plans h ps p Hi). eapply nth_error_In; eauto.
+Qed.
+
+(* ---------- method names ---------- *)
+Lemma in_existsb_str (x : str) (l : list str) : existsb (str_eqb x) l = true <-> In x l.
+Proof.
+  rewrite existsb_exists. split.
+  - intros (y & Hy & E). apply str_eqb_eq in E. now subst.
+  - intros H. exists x. split; [exact H | apply str_eqb_refl].
+Qed.
+
+Lemma collected_names_in (n : str) (cl : list (list coder)) :
+  In n (collected_names cl) <-> exists cs c, In cs cl /\ In c cs /\ In n (coder_names c).
+Proof.
+  unfold collected_names. rewrite in_flat_map. split.
+  - intros (cs & Hcs & H). apply in_flat_map in H as (c & Hc & Hn). eauto.
+  - intros (cs & c & Hcs & Hc & Hn). exists cs. split; [exact Hcs|]. apply in_flat_map. eauto.
+Qed.
+
+(* what archiveinfo().method_names contains: the names of the display list for which some coder of some folder
+   carries a method of that name *)
+Lemma method_names_char (cl : list (list coder)) (n : str) :
+  In n (get_methods_names cl) <->
+  In n methods_namelist /\ exists cs c, In cs cl /\ In c cs /\ In n (coder_names c).
+Proof.
+  unfold get_methods_names. rewrite filter_In, in_existsb_str, collected_names_in. tauto.
+Qed.
+
+Lemma filter_NoDup {A} (f : A -> bool) (l : list A) : NoDup l -> NoDup (filter f l).
+Proof.
+  induction 1 as [|x l Hx Hl IH]; simpl; [constructor|].
+  destruct (f x); [constructor; [rewrite filter_In; tauto | exact IH] | exact IH].
+Qed.
+
+Fixpoint nodupb (l : list str) : bool :=
+  match l with [] => true | x :: r => negb (existsb (str_eqb x) r) && nodupb r end.
+Lemma nodupb_NoDup l : nodupb l = true -> NoDup l.
+Proof.
+  induction l as [|x r IH]; simpl; intros H; constructor.
+  - apply andb_true_iff in H as [H _]. intros Hin. apply in_existsb_str in Hin. rewrite Hin in H. discriminate.
+  - apply andb_true_iff in H as [_ H]. auto.
+Qed.
+
+(* in display order, without repetitions *)
+Lemma method_names_display_order (cl : list (list coder)) :
+  NoDup (get_methods_names cl) /\
+  exists keep, get_methods_names cl = filter keep methods_namelist.
+Proof.
+  split; [|eexists; reflexivity].
+  apply filter_NoDup. apply nodupb_NoDup. vm_compute. reflexivity.
+Qed.
+
+(* the method table entries whose names the display list lacks: exactly DELTA and Brotli *)
+Definition undisplayed : list method :=
+  filter (fun m => negb (existsb (str_eqb (m_name m)) methods_namelist)) supported_methods.
+Lemma undisplayed_methods : map m_name undisplayed = [[68; 69; 76; 84; 65] (* DELTA *); [66; 114; 111; 116; 108; 105] (* Brotli *)].
+Proof. vm_compute. reflexivity. Qed.
+
+Lemma coder_names_supported (c : coder) (m : method) :
+  In m supported_methods -> c_method c = m_id m -> In (m_name m) (coder_names c).
+Proof.
+  intros Hm Hc. unfold coder_names. apply in_or_app. left. apply in_map. apply filter_In. split; [exact Hm|].
+  rewrite Hc. apply str_eqb_refl.
+Qed.
+
+(* every coder whose method the display list knows by the table's name is reported *)
+Lemma method_names_complete_partial (cl : list (list coder)) cs c m :
+  In cs cl -> In c cs -> In m supported_methods -> c_method c = m_id m ->
+  ~ In m undisplayed -> In (m_name m) (get_methods_names cl).
+Proof.
+  intros Hcs Hc Hm Hid Hu. apply method_names_char. split.
+  - unfold undisplayed in Hu. rewrite filter_In in Hu.
+    destruct (existsb (str_eqb (m_name m)) methods_namelist) eqn:E; [now apply in_existsb_str|].
+    exfalso. apply Hu. split; [exact Hm | reflexivity].
+  - exists cs, c. repeat split; auto. now apply coder_names_supported.
+Qed.
+
+(* the full statement "every supported coder present is named" is false: Delta and Brotli coders are never named *)
+Definition delta_coder : coder := mkCoder [3] 1 1 (Some [0]).
+Definition brotli_coder : coder := mkCoder [4; 247; 17; 2] 1 1 (Some [1; 0; 5]).
+Lemma method_names_complete_refuted :
+  exists cl cs c m, In cs cl /\ In c cs /\ In m supported_methods /\ c_method c = m_id m
+                    /\ ~ In (m_name m) (get_methods_names cl).
+Proof.
+  exists [[delta_coder; mkCoder [33] 1 1 (Some [24])]], [delta_coder; mkCoder [33] 1 1 (Some [24])], delta_coder,
+         (mkMethod [3] [68; 69; 76; 84; 65] (* DELTA *) 3 1).
+  split; [left; reflexivity|]. split; [left; reflexivity|]. split; [right; right; left; reflexivity|].
+  split; [reflexivity|].
+  intros H. apply in_existsb_str in H. vm_compute in H. discriminate.
+Qed.
+Lemma method_names_brotli_refuted :
+  get_methods_names [[brotli_coder]] = [] /\ In [66; 114; 111; 116; 108; 105] (* Brotli *) (map m_name supported_methods)
+  /\ get_filter_id brotli_coder = Some 55.
+Proof. vm_compute. repeat split. right; right; right; right; right; right; right; right; right; right; right; right; right; right.
+  left. reflexivity. Qed.
+
+(* ---------- needs_password ---------- *)
+(* over the method table: the filter id found for a method id names a crypto method exactly for 7zAES *)
+Definition table_crypto_ok : bool :=
+  forallb (fun m => match is_crypto_id (m_filter m) with
+                    | Ok b => Bool.eqb b (str_eqb (m_id m) AES_ID)
+                    | Err _ => false end) supported_methods.
+Lemma table_crypto_ok_true : table_crypto_ok = true.
+Proof. vm_compute. reflexivity. Qed.
+
+Lemma coder_crypto (c : coder) :
+  match get_filter_id c with
+  | None => c_method c <> AES_ID
+  | Some fid => exists b, is_crypto_id fid = Ok b /\ (b = true <-> c_method c = AES_ID)
+  end.
+Proof.
+  unfold get_filter_id.
+  destruct (find (fun m => str_eqb (m_id m) (c_method c)) supported_methods) as [m|] eqn:E.
+  - apply find_some in E as [Hin Heq]. apply str_eqb_eq in Heq.
+    pose proof table_crypto_ok_true as T. unfold table_crypto_ok in T. rewrite forallb_forall in T.
+    specialize (T m Hin). destruct (is_crypto_id (m_filter m)) as [b|]; [|discriminate].
+    exists b. split; [reflexivity|]. apply Bool.eqb_prop in T. rewrite T, <- Heq. apply str_eqb_eq.
+  - intros Hc. pose proof (find_none _ _ E (mkMethod AES_ID [55; 122; 65; 69; 83] (* 7zAES *) 116459265 2)) as Hn.
+    simpl in Hn. rewrite Hc in Hn.
+    assert (Hin : In (mkMethod AES_ID [55; 122; 65; 69; 83] (* 7zAES *) 116459265 2) supported_methods)
+      by (unfold supported_methods; repeat (try (left; reflexivity); right)).
+    specialize (Hn Hin). vm_compute in Hn. discriminate.
+Qed.
+
+Lemma coders_need_password_char (cs : list coder) :
+  exists b, coders_need_password cs = Ok b /\ (b = true <-> exists c, In c cs /\ c_method c = AES_ID).
+Proof.
+  induction cs as [|c r (b & Hb & IH)]; simpl.
+  - exists false. split; [reflexivity|]. split; [discriminate | intros (c & [] & _)].
+  - pose proof (coder_crypto c) as Hc. destruct (get_filter_id c) as [fid|].
+    + destruct Hc as (b0 & H0 & Hiff). rewrite H0. simpl. destruct b0.
+      * exists true. split; [reflexivity|]. split; [|reflexivity]. intros _. exists c. split; [now left | now apply Hiff].
+      * exists b. split; [exact Hb|]. rewrite IH. split.
+        -- intros (c' & Hin & E). exists c'. split; [now right | exact E].
+        -- intros (c' & [<-|Hin] & E); [apply Hiff in E; discriminate | eauto].
+    + exists b. split; [exact Hb|]. rewrite IH. split.
+      * intros (c' & Hin & E). exists c'. split; [now right | exact E].
+      * intros (c' & [<-|Hin] & E); [contradiction | eauto].
+Qed.
+
+Lemma map_res_need_password (cl : list (list coder)) :
+  exists bs, map_res coders_need_password cl = Ok bs /\
+             (existsb (fun b => b) bs = true <-> exists cs c, In cs cl /\ In c cs /\ c_method c = AES_ID).
+Proof.
+  induction cl as [|cs r (bs & Hbs & IH)]; simpl.
+  - exists []. split; [reflexivity|]. split; [discriminate | intros (cs & c & [] & _)].
+  - destruct (coders_need_password_char cs) as (b & Hb & Hiff). rewrite Hb. simpl. rewrite Hbs. simpl.
+    exists (b :: bs). split; [reflexivity|]. simpl. rewrite orb_true_iff, Hiff, IH. split.
+    + intros [(c & Hc & E)|(cs' & c & Hcs & Hc & E)]; [exists cs, c | exists cs', c]; auto.
+    + intros (cs' & c & [<-|Hcs] & Hc & E); [left | right]; eauto.
+Qed.
+
+(* the folders of an archive (none when it has no main streams) *)
+Definition folders_of (h : header) : list folder :=
+  match h_streams h with Some st => match si_folders st with Some fs => fs | None => [] end | None => [] end.
+Definition has_aes_coder (h : header) : Prop :=
+  exists f c, In f (folders_of h) /\ In c (f_coders f) /\ c_method c = AES_ID.
+
+Lemma needs_password_iff_header (pw : bool) (h : header) (b : bool) :
+  h_files h <> None -> needs_password pw h = Ok b -> (b = true <-> pw = true \/ has_aes_coder h).
+Proof.
+  unfold needs_password, has_aes_coder, folders_of. intros Hf H.
+  destruct (impl_plans h) as [ps|]; simpl in H; [|discriminate].
+  destruct (h_files h) as [files|]; [|contradiction].
+  destruct pw; [inversion H; tauto|].
+  destruct (h_streams h) as [st|].
+  - destruct (si_folders st) as [folders|]; [|discriminate].
+    destruct (map_res_need_password (map f_coders folders)) as (bs & Hbs & Hiff). rewrite Hbs in H. simpl in H.
+    inversion H; subst. rewrite Hiff. split.
+    + intros (cs & c & Hcs & Hc & E). right. apply in_map_iff in Hcs as (f & <- & Hfin). eauto.
+    + intros [Hd|(f & c & Hfin & Hc & E)]; [discriminate|]. exists (f_coders f), c. split; [now apply in_map | auto].
+  - inversion H; subst. split; [discriminate|]. intros [Hd|(f & c & [] & _)]. discriminate.
+Qed.
+
+(* an opened archive always has an answer *)
+Lemma needs_password_total (pw : bool) (h : header) ps :
+  impl_plans h = Ok ps -> exists b, needs_password pw h = Ok b.
+Proof.
+  unfold needs_password. intros Hi. rewrite Hi. simpl.
+  destruct (h_files h) as [files|] eqn:Hf; [|eauto]. destruct pw; [eauto|].
+  destruct (h_streams h) as [st|] eqn:Hs; [|eauto].
+  destruct (si_folders st) as [folders|] eqn:Hfo.
+  - destruct (map_res_need_password (map f_coders folders)) as (bs & Hbs & _). rewrite Hbs. simpl. eauto.
+  - exfalso. unfold impl_plans in Hi. rewrite Hf, Hs, Hfo in Hi. discriminate.
+Qed.
+
+(* ---------- archiveinfo ---------- *)
+Lemma fold_left_add_shift (l : list Z) (a : Z) : fold_left Z.add l a = a + fold_left Z.add l 0.
+Proof. revert a; induction l as [|x r IH]; intros a; simpl; [lia|]. rewrite (IH (a + x)), (IH x). lia. Qed.
+
+Lemma reduce_add_sum (xs : list Z) (t : Z) : reduce_add xs = Ok t -> t = sumZ xs /\ xs <> [].
+Proof.
+  destruct xs as [|x r]; simpl; [discriminate|]. intros H; inversion H; subst. split; [|discriminate].
+  unfold sumZ. simpl. reflexivity.
+Qed.
+
+Lemma archiveinfo_agrees_header (hn : bool) (h : header) (a : ainfo) :
+  archiveinfo hn h = Ok a ->
+  exists ps st folders sub,
+    impl_plans h = Ok ps /\ ps <> [] /\ h_streams h = Some st /\ si_folders st = Some folders /\ si_sub st = Some sub
+    /\ ai_uncompressed a = sumZ (map ip_size ps)
+    /\ ai_blocks a = zlen folders
+    /\ (ai_solid a = true <-> exists n, In n (s_nums sub) /\ 1 < n)
+    /\ ai_method_names a = get_methods_names (map f_coders folders).
+Proof.
+  unfold archiveinfo. intros H.
+  destruct (impl_plans h) as [ps|] eqn:Ei; simpl in H; [|discriminate].
+  destruct (reduce_add (map af_uncompressed ps)) as [t|] eqn:Er; simpl in H; [|discriminate].
+  destruct hn; simpl in H; [|discriminate].
+  destruct (h_streams h) as [st|] eqn:Es; [|discriminate].
+  destruct (si_folders st) as [folders|] eqn:Efo; [|discriminate].
+  destruct (si_sub st) as [sub|] eqn:Esu; [|discriminate].
+  inversion H; subst; clear H. apply reduce_add_sum in Er as [Et Hne].
+  exists ps, st, folders, sub. simpl.
+  split; [reflexivity|]. split; [intros E; subst ps; now apply Hne|].
+  split; [reflexivity|]. split; [exact Efo|]. split; [exact Esu|].
+  split; [exact Et|]. split; [reflexivity|]. split; [|reflexivity]. split.
+  - intros He. apply existsb_exists in He as (n & Hn & Hlt). exists n. split; [exact Hn | lia].
+  - intros (n & Hn & Hlt). apply existsb_exists. exists n. split; [exact Hn | lia].
+Qed.
+
+(* archiveinfo() answers for every archive opened by path that has at least one member and main streams with
+   folders and SubStreamsInfo *)
+Lemma archiveinfo_partial_header (h : header) ps st folders sub :
+  impl_plans h = Ok ps -> ps <> [] -> h_streams h = Some st -> si_folders st = Some folders -> si_sub st = Some sub ->
+  exists a, archiveinfo true h = Ok a.
+Proof.
+  intros Hi Hne Hs Hf Hsub. unfold archiveinfo. rewrite Hi. simpl.
+  destruct ps as [|p r]; [contradiction|]. simpl. rewrite Hs, Hf, Hsub. eauto.
+Qed.
+
+(* ... but not for every archive: the empty archive (reduce without initial value) *)
+Definition empty_header : header := mkHeader None None [].
+Lemma archiveinfo_empty_refuted_header :
+  parse_header 100 [] = Ok empty_header /\ parse_header 100 [1; 0] = Ok empty_header
+  /\ impl_plans empty_header = Ok [] /\ archiveinfo true empty_header = Err EOther.
+Proof. vm_compute. repeat split. Qed.
+
+(* ... and not for an archive whose members are all directories / empty files stored without main streams *)
+Definition nostreams_header : header :=
+  mkHeader None (Some [mkFile true (Some [100] (* d *)) None None None (Some (Some 16));
+                       mkFile true (Some [101] (* e *)) None None None (Some (Some 32))]) [false; true].
+Lemma archiveinfo_nostreams_refuted_header :
+  (exists ps, impl_plans nostreams_header = Ok ps /\ map (af_filename []) ps = [[100] (* d *); [101] (* e *)])
+  /\ archiveinfo true nostreams_header = Err EOther.
+Proof. split; [eexists; split; vm_compute; reflexivity | vm_compute; reflexivity]. Qed.
+
+(* opened from a stream without a name: `assert fname is not None` *)
+Lemma archiveinfo_stream_header (h : header) : archiveinfo false h = Err EOther \/ exists e, archiveinfo false h = Err e.
+Proof.
+  unfold archiveinfo. destruct (impl_plans h) as [ps|e]; simpl; [|right; eauto].
+  destruct (reduce_add (map af_uncompressed ps)) as [t|e]; simpl; [left; reflexivity | right; eauto].
+Qed.
+
+(* ================================================================== *)
+(* Header-level statements (what props/C10.v exports)                  *)
+(* ================================================================== *)
+Lemma names_agree_header dflt h ps :
+  impl_plans h = Ok ps ->
+  getnames dflt ps = namelist dflt ps /\ list_names dflt ps = namelist dflt ps /\ files_names dflt ps = namelist dflt ps
+  /\ (forall files, h_files h = Some files -> namelist dflt ps = map (entry_name dflt) files)
+  /\ (h_files h = None -> namelist dflt ps = []).
+Proof.
+  intros H. destruct (names_agree_plans dflt ps) as (H1 & H2 & H3). repeat split; auto.
+  - intros files Hf. eapply names_stored_order_plans; eauto.
+  - intros Hf. apply impl_plans_rel in H. rewrite Hf in H. now subst.
+Qed.
+
+(* the listed size / CRC / flag of the i-th member, in every interface, is that of the i-th plan *)
+Lemma listing_rows_header dflt h ps i p :
+  impl_plans h = Ok ps -> nth_error ps i = Some p ->
+  exists row, nth_error (list_model dflt ps) i = Some row
+              /\ fi_filename row = af_filename dflt p /\ fi_uncompressed row = ip_size p /\ fi_crc32 row = ip_crc p
+              /\ fi_is_directory row = af_is_directory p.
+Proof.
+  intros _ Hp. destruct (list_loop_rows dflt None ps i p Hp) as (row & Hr & H1 & H2 & H3 & H4 & _).
+  exists row. repeat split; assumption.
+Qed.
+
+Lemma getinfo_total_refuted_header :
+  exists dflt h ps n, impl_plans h = Ok ps /\ In n (getnames dflt ps) /\ getinfo dflt ps n = None.
+Proof.
+  exists [], (mkHeader None (Some [mkFile true (Some [100; 47] (* d/ *)) None None None (Some (Some 16))]) [false]).
+  eexists. exists [100; 47] (* d/ *). split; [vm_compute; reflexivity|]. split; [left; reflexivity | reflexivity].
+Qed.
